@@ -1,4 +1,5 @@
 import SkaModel.Props.C02
+import SkaModel.Core.Skeleton
 
 /-!
 # C01 — a pool query returns a valid batch: right size, distinct, only candidates
@@ -177,6 +178,43 @@ theorem poolQueryA_prop_valid (isInf : α → Bool) (n : Nat) (mapping : Option 
     rw [h1] at hc
     obtain ⟨v, hv, -, hv0⟩ := h4 c hc
     exact ⟨v, hv, hv0⟩
+
+/-! ### the source-derived skeleton (translator tie) -/
+
+open Ska.Skeleton in
+/-- A `query` method whose regenerated skeleton is well formed denotes `poolQueryA` with its method. -/
+theorem skel_sound (s : Skel) (h : s.wellFormed = true) (isInf : α → Bool) (n : Nat)
+    (mapping : Option (List Nat)) (uc : List (Option α)) (b : Nat) (noises : List (List β)) (choice : List Nat) :
+    ∃ m, s.methodOf = some m ∧
+      s.denote isInf n mapping uc b noises choice = some (poolQueryA isInf n mapping uc b m noises choice) := by
+  unfold Skel.denote
+  rw [if_pos h]
+  cases hm : s.methodOf with
+  | none =>
+    simp only [Skel.wellFormed, Bool.and_eq_true] at h
+    rw [hm] at h; simp at h
+  | some m => exact ⟨m, rfl, rfl⟩
+
+open Ska.Skeleton in
+/-- **C01 for every class whose source has a well-formed maximising skeleton**: the obligation
+`skel_<Class>_wf` (regenerated from the source and checked by `decide` on every run) is all that is
+needed to conclude a valid batch, for all inputs. -/
+theorem skel_max_valid (s : Skel) (h : s.wellFormed = true) (hmax : s.method = "max")
+    (isInf : α → Bool) (n : Nat) (mp : List Nat) (uc : List (Option α))
+    (b : Nat) (noises : List (List β)) (choice : List Nat)
+    (hlen : uc.length = mp.length) (hnd : mp.Nodup) (hr : ∀ i ∈ mp, i < n)
+    (hall : ∀ x ∈ uc, ∃ v, x = some v ∧ isInf v = false) (hb : 1 ≤ b) (hne : 1 ≤ mp.length)
+    (hn : min b mp.length ≤ noises.length) (hpos : PosNoise n noises) :
+    ∃ rs, s.denote isInf n (some mp) uc b noises choice = some (.ok rs) ∧
+      ValidBatch mp b (rs.map Prod.fst) ∧ ValidUtils .max n mp (rs.map Prod.fst) (rs.map Prod.snd) := by
+  obtain ⟨m, hm, hd⟩ := skel_sound s h isInf n (some mp) uc b noises choice
+  have : m = .max := by
+    simp only [Skel.methodOf, hmax, if_true, Option.some.injEq] at hm
+    exact hm.symm
+  subst this
+  obtain ⟨rs, hrs, hl, hv⟩ := poolQueryA_utils isInf n mp uc b noises choice hlen hnd hr hall hb hne hn hpos
+  obtain ⟨hnd', hmem⟩ := stepwise_implies_valid _ _ _ _ _ hv
+  exact ⟨rs, by rw [hd, hrs], ⟨by simpa using hl, hnd', fun i hi => (hmem i hi).1⟩, hv⟩
 
 /-! ### non-vacuity -/
 
